@@ -4,12 +4,12 @@
 package simrt
 
 import (
-	"runtime"
 	"cmp"
 	"crypto/sha256"
 	"encoding/hex"
 	"fmt"
 	"reflect"
+	"runtime"
 	"slices"
 	"sort"
 	"strings"
